@@ -84,6 +84,8 @@ def decode(v):
         return Opq(v['opaque'], v['id'], {k: decode(x) for k, x in v.get('attrs', {}).items()})
     if isinstance(v, dict) and '__tuple__' in v:
         return tuple(decode(x) for x in v['__tuple__'])
+    if isinstance(v, dict) and '__set__' in v:
+        return set(decode(x) for x in v['__set__'])
     if isinstance(v, list):
         return [decode(x) for x in v]
     if isinstance(v, dict):
@@ -201,6 +203,8 @@ def encode(v):
         return {'__tuple__': [encode(x) for x in v]}
     if isinstance(v, list):
         return [encode(x) for x in v]
+    if isinstance(v, (set, frozenset)):
+        return {'__set__': sorted((encode(x) for x in v), key=repr)}
     if isinstance(v, dict):
         return {k: encode(x) for k, x in v.items()}
     if isinstance(v, Opq):
@@ -224,4 +228,7 @@ def main(argv):
 
 
 if __name__ == '__main__':
-    sys.exit(main(sys.argv[1:]))
+    sys.path.insert(0, os.path.dirname(os.path.dirname(os.path.abspath(__file__))))
+    from pyvc import native as _n  # one module object (sidecars import pyvc.native.Opq)
+
+    sys.exit(_n.main(sys.argv[1:]))
